@@ -115,15 +115,26 @@ enum AnyResolver {
   Single(SingleThreadedResolver<CoreDocument>),
 }
 
-fn build_resolver(case: &Value, env: &Arc<Env>, single: bool) -> AnyResolver {
+/// `reattach`: a stale handler (tagged "<method>-stale") is attached first for every method and then replaced
+fn build_resolver(case: &Value, env: &Arc<Env>, single: bool, reattach: bool) -> AnyResolver {
   if single {
     let mut r: SingleThreadedResolver<CoreDocument> = SingleThreadedResolver::new();
+    if reattach {
+      for m in arr(&case["handlers"]) {
+        r.attach_handler(s(m).to_string(), handler(env.clone(), format!("{}-stale", s(m))));
+      }
+    }
     for m in arr(&case["handlers"]) {
       r.attach_handler(s(m).to_string(), handler(env.clone(), s(m).to_string()));
     }
     AnyResolver::Single(r)
   } else {
     let mut r: Resolver<CoreDocument> = Resolver::new();
+    if reattach {
+      for m in arr(&case["handlers"]) {
+        r.attach_handler(s(m).to_string(), handler(env.clone(), format!("{}-stale", s(m))));
+      }
+    }
     for m in arr(&case["handlers"]) {
       r.attach_handler(s(m).to_string(), handler(env.clone(), s(m).to_string()));
     }
@@ -157,11 +168,11 @@ fn drive<T>(mut fut: Pin<Box<dyn Future<Output = T> + '_>>, env: &Env, order: &[
   Err("the call never returned".into())
 }
 
-fn check_multiple(case: &Value, single: bool) -> Result<Vec<(String, Value, Value)>, String> {
+fn check_multiple(case: &Value, single: bool, reattach: bool) -> Result<Vec<(String, Value, Value)>, String> {
   let mut diffs = Vec::new();
   let env = Arc::new(Env::default());
   *env.fails.lock().unwrap() = arr(&case["fails"]).iter().map(did_text).collect();
-  let resolver = build_resolver(case, &env, single);
+  let resolver = build_resolver(case, &env, single, reattach);
   let dids: Vec<CoreDID> = arr(&case["input"]).iter().map(|d| CoreDID::parse(did_text(d)).unwrap()).collect();
   let order: Vec<String> = arr(&case["order"]).iter().map(did_text).collect();
   let all: Vec<String> = dids.iter().map(|d| d.to_string()).collect();
@@ -215,13 +226,13 @@ fn check_multiple(case: &Value, single: bool) -> Result<Vec<(String, Value, Valu
 }
 
 /// single resolution of every DID of the case: same handler table, gate opened immediately
-fn check_single(case: &Value, single: bool) -> Result<Vec<(String, Value, Value)>, String> {
+fn check_single(case: &Value, single: bool, reattach: bool) -> Result<Vec<(String, Value, Value)>, String> {
   let mut diffs = Vec::new();
   let handlers: Vec<&str> = arr(&case["handlers"]).iter().map(s).collect();
   for d in arr(&case["input"]) {
     let env = Arc::new(Env::default());
     *env.fails.lock().unwrap() = arr(&case["fails"]).iter().map(did_text).collect();
-    let resolver = build_resolver(case, &env, single);
+    let resolver = build_resolver(case, &env, single, reattach);
     let text = did_text(d);
     let did = CoreDID::parse(&text).unwrap();
     let out = match &resolver {
@@ -338,10 +349,10 @@ pub fn replay(cases: &[Value], rep: &mut Report) {
       continue; // the same behaviour emitted for several call subsets of the unsupported branch
     }
     note_case(case);
-    for single in [false, true] {
+    for (single, reattach) in [(false, false), (true, false), (false, true), (true, true)] {
       rep.eval();
-      let ctx = json!({"case": case, "single_threaded_resolver": single});
-      for (kind, r) in [("multiple", guarded(|| check_multiple(case, single))), ("single", guarded(|| check_single(case, single)))] {
+      let ctx = json!({"case": case, "single_threaded_resolver": single, "stale_handlers_attached_first": reattach});
+      for (kind, r) in [("multiple", guarded(|| check_multiple(case, single, reattach))), ("single", guarded(|| check_single(case, single, reattach)))] {
         match r {
           Err(p) => rep.mismatch(&format!("resolver/{kind}/panic"), &ctx, json!("no panic"), json!(p), "panic"),
           Ok(Err(e)) => rep.mismatch(&format!("resolver/{kind}/stuck"), &ctx, json!("the call returns within the modelled completion order"), json!(e), ""),
